@@ -37,6 +37,24 @@ def run():
     # the reciprocals the SuperscalarHash programs of a cache really multiply by: the table randomx_init_cache builds
     from checks import c09
     c09.scripted_init(ck, wd)
+    # ... and the table a VM uses after the cache's table was rebuilt and reallocated: key pair with 193 / 281 IMUL_RCP, VM re-bound late
+    import apiscen
+    scens = []
+    for kind in ('IL', 'CL'):
+        h = apiscen.late_rebind_history(kind)
+        scens.append({'hist': h, 'ks': 8, 'iset': 0, 'text': apiscen.to_text(h, {'cachejit': 1, 'argon': 0, 'hard': 0, 'secure': 0})})
+    tabs = apiscen.fresh_tables([(8, 0)], ['IL', 'CL'], os.path.join(wd, 'fresh'))
+    for sc in scens:
+        sc['data'], sc['fresh'] = tabs[(8, 0)]
+    traces = apiscen.replay(scens, os.path.join(wd, 'replay'), watchdog=600)
+    alines, agroup = [], []
+    for j, t in enumerate(traces):
+        alines += ['{"e":"Reset"}'] + t
+        agroup += [j] * (len(t) + 1)
+    ares = vlib.validate_sharded('TraceApi', 'TraceApi.cfg', alines, 'c18api', shards=2, timeout=1500, group=agroup, independent=False)
+    ck.add_traces('TraceApi(table growth)', ares, 'a light VM bound before the cache is re-keyed to a key with more IMUL_RCP (reciprocal table reallocated) and back, re-bound only afterwards: digests = fresh digests')
+    for rj in ares['rejected']:
+        ck.violation('rcptable:' + rj['line'][:60].replace('"', ''), 'hash after the reciprocal table was rebuilt is rejected: %s' % rj['line'][:300], {'tlc': rj['tlc']})
     ck.cov['branch_programs_with_noop_imul_rcp'] = sum(1 for l in recs['branch'] if '"first":true' in l)
     ck.cov['divisors_checked'] = sum(1 for l in lines if l.startswith('{"e":"rcp"'))
     ck.cov['noop_words_checked'] = sum(1 for l in lines if l.startswith('{"e":"step"'))
